@@ -2,7 +2,7 @@
    (parse_tok_exact), for every layout, by induction on terms. *)
 From AwVerif Require Import Base.Prelude Model.PyStr Model.Query Model.QueryRef
   Proofs.QueryScan Proofs.QueryTotal Proofs.QueryClasses Proofs.QueryRefStr Proofs.QueryRefScan
-  Proofs.QueryRefToken Proofs.QueryRefParse Proofs.QueryRefLoops.
+  Proofs.QueryRefToken Proofs.QueryRefParse Proofs.QueryRefLoops Proofs.QueryRefDict.
 From Coq Require Import ZifyBool Lia.
 Open Scope Z_scope.
 
@@ -53,31 +53,25 @@ Section Term.
   Lemma parse_list_blank f b acc : all_space b = true -> parse_list md ns (S f) b acc = Ok acc.
   Proof. intro H. cbn [parse_list]. rewrite strip_all_space by assumption. reflexivity. Qed.
 
-  (* terms without dict literals (the dict-entry loop lemma is not finished, see notes/agents/C11.md) *)
-  Fixpoint no_dict (t : term) : Prop :=
-    match t with
-    | TCall _ args => (fix all (l : list term) : Prop := match l with [] => True | a :: r => no_dict a /\ all r end) args
-    | TLst l => (fix all (l : list term) : Prop := match l with [] => True | a :: r => no_dict a /\ all r end) l
-    | TDct _ => False
-    | _ => True
-    end.
+  Lemma ptok_dict f s : ptok (S f) TDict s = bind (parse_dict md ns f (slice_1_m1 s) []) (fun d => Ok (QDict d)).
+  Proof. reflexivity. Qed.
 
-  Lemma no_dict_all_forall (l : list term) :
-    (fix all (l : list term) : Prop := match l with [] => True | a :: r => no_dict a /\ all r end) l -> Forall no_dict l.
-  Proof. induction l as [|a r IH]; intro H; [constructor|]. destruct H as [Ha Hr]. constructor; [assumption|apply IH; assumption]. Qed.
+  Lemma fuel_call (n inn : str) f : (2 * length (n ++ [c_lpar] ++ inn ++ [c_rpar]) + 1 <= S f)%nat ->
+    (2 * length inn + 2 <= f)%nat.
+  Proof. rewrite !app_length. cbn [length]. lia. Qed.
+  Lemma fuel_wrap o (inn : str) c f : (2 * length ([o] ++ inn ++ [c]) + 1 <= S f)%nat ->
+    (2 * length inn + 2 <= f)%nat.
+  Proof. rewrite !app_length. cbn [length]. lia. Qed.
 
-  Lemma forall_mp (l : list term) : Forall (fun t => no_dict t -> P lay md ns t) l -> Forall no_dict l -> Forall (P lay md ns) l.
-  Proof. induction 1 as [|a r Ha Hr IH]; intro H; [constructor|]. inversion H; subst. constructor; [apply Ha; assumption|apply IH; assumption]. Qed.
-
-  Theorem parse_tok_exact_partial t : no_dict t -> P lay md ns t.
+  (* parse (print t) = t for every well-formed term *)
+  Theorem parse_tok_exact t : P lay md ns t.
   Proof.
-    induction t as [ds|q s|n|n args IH|l IH|d IH] using term_ind2; intro Hnd; unfold P; intros Hw p fuel Hf;
+    induction t as [ds|q s|n|n args IH|l IH|d IH] using term_ind2; unfold P; intros Hw p fuel Hf;
       (destruct fuel as [|f]; [lia|]); cbn [kind tok_of].
     - destruct Hw as (Hne & Hd & Hm). cbn [QueryRef.txt parse_tok]. rewrite py_int_exact by assumption. reflexivity.
     - destruct Hw as (Hq & He & _). cbn [QueryRef.txt parse_tok]. rewrite parse_string_exact by assumption. reflexivity.
     - reflexivity.
     - destruct Hw as [Hn Ha]. apply wf_all_forall in Ha. destruct (wf_name_chars n Hn) as [_ Hnc].
-      pose proof (forall_mp args IH (no_dict_all_forall args Hnd)) as IHP.
       rewrite ptok_fn. cbn [QueryRef.txt] in *.
       set (inn := inner lay txt p args) in *.
       assert (Eas : arg_start_of (n ++ [c_lpar] ++ inn ++ [c_rpar]) = length n) by (apply arg_start_name; assumption).
@@ -91,30 +85,36 @@ Section Term.
         rewrite !app_length. cbn [length].
         replace (length n + 1 + (length inn + 1) - 1 - (length n + 1))%nat with (length inn) by lia.
         apply take_app_exact. }
-      rewrite Esl. rewrite !app_length in Hf. cbn [length] in Hf.
+      rewrite Esl. apply fuel_call in Hf.
       unfold inn, inner in *. destruct args as [|a0 args0].
       + destruct f as [|f']; [lia|]. rewrite parse_args_blank by apply Hlay. reflexivity.
-      + rewrite (parse_args_exact lay Hlay md ns (a0 :: args0)); [reflexivity|assumption|assumption|congruence|apply Hlay|apply Hlay|].
-        rewrite ?app_length in *. lia.
-    - apply wf_all_forall in Hw. pose proof (forall_mp l IH (no_dict_all_forall l Hnd)) as IHP.
+      + rewrite (parse_args_exact lay Hlay md ns (a0 :: args0)); [reflexivity|assumption|assumption|congruence|apply Hlay|apply Hlay|assumption].
+    - apply wf_all_forall in Hw.
       rewrite ptok_list. cbn [QueryRef.txt] in *.
-      rewrite slice_1_m1_wrap. rewrite !app_length in Hf. cbn [length] in Hf.
+      rewrite slice_1_m1_wrap. apply fuel_wrap in Hf.
       unfold inner in *. destruct l as [|a0 l0].
       + destruct f as [|f']; [lia|]. rewrite parse_list_blank by apply Hlay. reflexivity.
-      + rewrite (parse_list_exact lay Hlay md ns (a0 :: l0)); [reflexivity|assumption|assumption|congruence| |apply Hlay|].
-        * left. apply Hlay.
-        * rewrite ?app_length in *. lia.
-    - destruct Hnd.
+      + rewrite (parse_list_exact lay Hlay md ns (a0 :: l0)); [reflexivity|assumption|assumption|congruence| |apply Hlay|assumption].
+        left. apply Hlay.
+    - destruct Hw as [Hk Hw]. apply wf_entries_forall in Hw. rewrite ptok_dict. cbn [QueryRef.txt] in *.
+      rewrite slice_1_m1_wrap. apply fuel_wrap in Hf.
+      change (fun pe e => str_txt (fst (fst e)) (snd (fst e)) ++ lay pe 0%nat ++ [c_colon] ++ lay pe 1%nat ++
+                txt (0%nat :: pe) (snd e)) with (prd lay) in *.
+      unfold inner in *. destruct d as [|a0 d0].
+      + destruct f as [|f']; [lia|]. rewrite (parse_dict_blank md ns) by apply Hlay. reflexivity.
+      + rewrite (parse_dict_exact lay Hlay md ns (a0 :: d0)); [reflexivity|assumption|assumption|congruence
+          |apply Hlay|apply Hlay|assumption| |assumption].
+        intros x _ [].
   Qed.
 End Term.
 
-(* two layouts of one (dict-free) term give the same token tree *)
-Lemma parse_layout_irrelevant_partial lay1 lay2 md ns t p1 p2 f1 f2 :
-  wf_layout lay1 -> wf_layout lay2 -> wf md t -> no_dict t ->
+(* two layouts of one term give the same token tree *)
+Lemma parse_layout_irrelevant lay1 lay2 md ns t p1 p2 f1 f2 :
+  wf_layout lay1 -> wf_layout lay2 -> wf md t ->
   (2 * length (txt lay1 p1 t) + 1 <= f1)%nat -> (2 * length (txt lay2 p2 t) + 1 <= f2)%nat ->
   parse_tok md ns f1 (kind t) (txt lay1 p1 t) = parse_tok md ns f2 (kind t) (txt lay2 p2 t).
 Proof.
-  intros H1 H2 Hw Hn F1 F2.
-  rewrite (parse_tok_exact_partial lay1 H1 md ns t Hn Hw p1 f1 F1).
-  rewrite (parse_tok_exact_partial lay2 H2 md ns t Hn Hw p2 f2 F2). reflexivity.
+  intros H1 H2 Hw F1 F2.
+  rewrite (parse_tok_exact lay1 H1 md ns t Hw p1 f1 F1).
+  rewrite (parse_tok_exact lay2 H2 md ns t Hw p2 f2 F2). reflexivity.
 Qed.
